@@ -354,6 +354,11 @@ def bowl_curve(draw, nk, center, rlo, rhi, cw=False):
         curve = [bowl, [B, C], [C, A]]
     assume(A != B and no_collapsed_segment(curve) and rg.curve_area(curve) > 0)
     assume(_segments_meet_only_at_corners(curve))
+    # curved pieces must be clearly curved (library clean() tolerance), as in star_curve
+    for seg in curve:
+        if len(seg) == 3:
+            d2 = (seg[0][0] - 2 * seg[1][0] + seg[2][0], seg[0][1] - 2 * seg[1][1] + seg[2][1])
+            assume(rg.norm(d2) >= 0.05)
     return rg.curve_reverse(curve) if cw else curve
 
 
